@@ -11,6 +11,7 @@ import os
 import shutil
 import zlib
 
+from .. import cgit
 from ..model import packfmt
 from . import repos
 
@@ -199,7 +200,10 @@ def build_server(path, uni: Universe, refs_layout="loose", obj_layout="loose"):
         for name, val in uni.server_refs.items():
             r.refs[name] = val
         if refs_layout in ("packed", "mixed"):
-            r.refs.pack_refs(all=True)
+            # packed by C git: header with the peeled/fully-peeled traits and a ^peeled line for the annotated tag
+            r.close()
+            cgit.git(["pack-refs", "--all"], cwd=path)
+            r = Repo(path)
         if refs_layout == "mixed":
             r.refs[b"refs/heads/topic"] = uni.ids["c2"]  # loose over a stale packed entry
             r.refs[b"refs/heads/looseonly"] = uni.ids["c1"]
